@@ -113,7 +113,13 @@ func body(c *mc.Ctx) {
 	finished := false
 	killedAt := ""
 	survivors := false // a worker survived a failure of its assembly and was deployed again
-	schedh.Run(c, schedh.Opts{MaxSteps: 400000, NoAdvanceAlt: true, MaxAdvances: 3000, FixedSchedule: true}, func() {
+	stuckPrefix := func() string {
+		if survivors {
+			return "survivor-redeployed:"
+		}
+		return ""
+	}
+	schedh.Run(c, schedh.Opts{MaxSteps: 400000, NoAdvanceAlt: true, MaxAdvances: 3000, FixedSchedule: true, SigPrefix: stuckPrefix}, func() {
 		cl = cluster.New(c, cfg)
 		defer cl.Close()
 		cl.StartJob("")
@@ -127,6 +133,16 @@ func body(c *mc.Ctx) {
 			cl.Quiesce()
 			if len(cl.Failures) > 0 {
 				break
+			}
+			// a call to a dead node fails after a time-out: every four such calls a heartbeat period
+			// (3 s on the harness clock) has passed and the live workers register again; a node that
+			// died is purged once two periods have passed without its heartbeat
+			if cl.DeadCalls >= 4 {
+				cl.DeadCalls = 0
+				c.Op("(calls to dead nodes timed out: 3 s pass, live workers heartbeat)")
+				cl.Clock.Advance(3 * time.Second)
+				cl.Heartbeat()
+				continue
 			}
 			pend := cl.Pending()
 			if tickIdx < len(cfg.TickAfter) && cl.EventBatches >= cfg.TickAfter[tickIdx] && cl.Clock.Active("checkpointing") {
@@ -156,6 +172,9 @@ func body(c *mc.Ctx) {
 					}
 					if c.Replay {
 						c.Op("  deliver %s", l)
+						if os.Getenv("C01_DEBUG") != "" {
+							c.Op("      job: %s", cl.Job.VerifDump())
+						}
 					}
 					continue
 				}
